@@ -543,6 +543,67 @@ pub fn run(suite: &str, thorough: bool, seed: u64, shard: usize, nshards: usize,
                 em.case(s, crate::store_ops::perturb_case(&f1, &f2, &target, how));
             }
         }
+        // C20: every proper prefix of generated documents followed by an unacceptable token or
+        // end of input, and recovered errors inside mutated documents
+        "expected" => {
+            let n = share(if thorough { 3000 } else { 60 });
+            let bad = [";", "}", ")", "{", "interface", "foo", "123", "@A", "=", ",", "<", ">", "class", "in", "void", "\"s\"", "1.5", ".", "oneway", "List", "[", "true"];
+            for _ in 0..n {
+                let sd = rng.next();
+                let mut r = Rng::new(sd);
+                let cfg = gen::DocCfg { docs: false, max_members: 3, max_depth: 2, ..Default::default() };
+                let d = gen::gen_document(&mut r, &cfg);
+                let rd = doc::render(&d);
+                let mut pairs: Vec<Json> = Vec::new();
+                let mut texts: Vec<Json> = Vec::new();
+                let _ = aidl_parser::diagnostic::verif_take_expected();
+                let mut run = |text: String, pairs: &mut Vec<Json>, texts: &mut Vec<Json>| {
+                    let res = catch_unwind(AssertUnwindSafe(|| {
+                        let mut p: Parser<String> = Parser::new();
+                        p.add_content("x".to_owned(), &text);
+                    }));
+                    let got = aidl_parser::diagnostic::verif_take_expected();
+                    if res.is_err() {
+                        pairs.push(Json::s("panic"));
+                    }
+                    for (v, m) in got {
+                        pairs.push(Json::Arr(vec![Json::Arr(v.into_iter().map(Json::s).collect()), Json::s(m)]));
+                    }
+                    if texts.len() < 3 {
+                        texts.push(Json::s(text));
+                    }
+                };
+                for k in 0..rd.toks.len() {
+                    let prefix = doc::layout(&rd.toks[..k], LayoutStyle::Plain, &mut r).text;
+                    // end of input
+                    run(prefix.clone(), &mut pairs, &mut texts);
+                    // an unacceptable (or acceptable: then no error is reported here) token
+                    let b = *r.pick(&bad);
+                    run(format!("{} {}", prefix, b), &mut pairs, &mut texts);
+                }
+                // mutated complete documents: recovered errors
+                for _ in 0..6 {
+                    let mut toks = rd.toks.clone();
+                    let i = r.below(toks.len());
+                    match r.below(3) {
+                        0 => {
+                            toks.remove(i);
+                        }
+                        1 => toks[i].text = (*r.pick(&bad)).to_owned(),
+                        _ => toks.insert(i, doc::Tok { text: (*r.pick(&bad)).to_owned(), pre_comment: None }),
+                    }
+                    run(doc::layout(&toks, LayoutStyle::Plain, &mut r).text, &mut pairs, &mut texts);
+                }
+                em.case(
+                    sd,
+                    vec![
+                        ("op", Json::s("expected")),
+                        ("texts", Json::Arr(texts)),
+                        ("impl", Json::obj(vec![("outcome", Json::s("ok")), ("pairs", Json::Arr(pairs))])),
+                    ],
+                );
+            }
+        }
         _ => {
             eprintln!("unknown suite {}", suite);
             std::process::exit(2);
